@@ -132,7 +132,7 @@ theorem gs_execCmd (h : GS fr df w) (hes : EndSep w) (hsep : CondSep w) (ht : Ti
     (execCmd w p c).1.fault = none → GH df (execCmd w p c).1 := by
   have hat : ∀ k, Await.time k ∈ (w.proc p).awaits → NG w k := fun k hk => (ht p k hk).2
   have hin : InertCmd c → GH df (execCmd w p c).1 := fun hc =>
-    h.gh.inert h.ginv.ei (inert_execCmd c hc hcv hat)
+    h.gh.inert h.ginv.ei (inert_execCmd c hc h.ginv.ei hcv hat)
   cases c with
   | stop q v => exact fun _ => gs_cmd_stop h ht q v
   | exit v => exact fun _ => gs_cmd_exit h ht v
